@@ -95,9 +95,9 @@ def run_exe(exe, lines, workdir, name, env=None, timeout=3600):
 
 # ---------------------------------------------------------------- S1: proof status
 def coq_make(targets, timeout=2400):
+    if not os.path.exists(os.path.join(COQ, "Makefile")):
+        subprocess.run([os.path.join(VERIF, "bin", "setup")], stdout=subprocess.PIPE, stderr=subprocess.STDOUT)
     with vbuild.Lock("coq"):
-        if not os.path.exists(os.path.join(COQ, "Makefile")):
-            subprocess.run([os.path.join(VERIF, "bin", "setup")], stdout=subprocess.PIPE, stderr=subprocess.STDOUT)
         r = subprocess.run(["make", "-k", "-j16"] + targets, cwd=COQ, stdout=subprocess.PIPE, stderr=subprocess.STDOUT, text=True, timeout=timeout)
     return r.returncode, r.stdout
 
@@ -157,9 +157,10 @@ def proof_status(pid, regen_log=""):
 
 # ---------------------------------------------------------------- known findings
 def load_known():
-    p = os.path.join(VERIF, "known_findings.json")
-    if not os.path.exists(p): return []
-    return json.load(open(p)).get("findings", [])
+    out = []
+    for p in [os.path.join(VERIF, "known_findings.json")] + sorted(glob.glob(os.path.join(VERIF, "known_findings.d", "*.json"))):
+        if os.path.exists(p): out += json.load(open(p)).get("findings", [])
+    return out
 
 
 def sig_matches(entry, pid, sig):
